@@ -76,7 +76,7 @@ impl PropImpl for C13 {
          Distinct by text hash.".into()
     }
     fn budget(&self, tier: Tier) -> Budget {
-        Budget { cases_per_lane: if tier == Tier::Quick { 3000 } else { 60_000 }, tape_max: 500, cpu_s: 10 }
+        Budget { cases_per_lane: if tier == Tier::Quick { 15000 } else { 60_000 }, tape_max: 500, cpu_s: 10 }
     }
     fn spaces(&self, _tier: Tier) -> Vec<Space> {
         vec![]
